@@ -12,5 +12,6 @@ theorem prog_tt3 : chkProg true true 3 = true := by decide +kernel
 theorem prog_tf4 : chkProg true false 4 = true := by decide +kernel
 theorem prog_tt4 : chkProg true true 4 = true := by decide +kernel
 theorem prog_tf7 : chkProg true false 7 = true := by decide +kernel
+theorem enter_tt7 : chkEnter true true 7 = true := by decide +kernel
 
 end Canopen.P402
